@@ -38,3 +38,10 @@ add('C12', 'differential testing against an independent streaming S2K: exhaustiv
     '6 passphrase shapes, all 256 counts for SHA-1/SHA-256 (all hashes x 3 key sizes in thorough), and random tuples with passphrases to 5000 octets.',
     'Trusted: hashlib. Only one- and two-context derivations are reachable through PGPy\'s cipher table.',
     'DESIGN.md 4/C12')
+add('C18', 'differential + history-based property testing (covering set over all pooled keys x timestamp boundaries, Hypothesis over keys/times/zones/histories) against an independent SHA-1-of-exported-packet oracle',
+    'Every pooled key (all algorithms/curves, leading-zero edge keys, KDF variants) x 11 timestamp boundaries and keys generated by PGPKey.new for every algorithm it can '
+    'generate (creation time in UTC and non-UTC zones) are run through generated histories of protect / unlock / pubkey / copy / export+import / add subkey / sign / encrypt; '
+    'after every step fingerprint, key id and short id of primary and subkeys must equal the reference value of the currently exported packet and the value before the step, '
+    'and emitted issuer / issuer-fingerprint / PKESK ids must name the component that acted (reference verification).',
+    'Trusted: hashlib SHA-1; refpgp.keys public-key body parser/encoder.',
+    'DESIGN.md 4/C18')
